@@ -58,7 +58,7 @@ def _shard(ctx, shard, nshards):
 
     def factory():
         @seed(runner.hseed(ctx, 16))
-        @runner.hsettings(ctx.scale(1200, 8000))
+        @runner.hsettings(ctx.scale(1200, 30000))
         @given(tapes(700))
         def test(data):
             case = build_case(data)
